@@ -22,6 +22,9 @@ pub fn initial_docs() -> Vec<InitialDoc> {
         InitialDoc { text: DOC_DOCTYPE, foreign: None, expanded: false },
         InitialDoc { text: DOC_TWO_PI, foreign: None, expanded: false },
         InitialDoc { text: "<r/>", foreign: None, expanded: false },
+        // the merged-text view used by xq / xe: runs of text, CDATA and references are one node
+        InitialDoc { text: "<r>t<![CDATA[c]]>&amp;<a/>u</r>", foreign: None, expanded: true },
+        InitialDoc { text: DOC_MIXED, foreign: None, expanded: true },
     ]
 }
 
@@ -70,8 +73,8 @@ impl Check for C12C {
     fn meta(&self) -> Meta {
         Meta {
             rule: "explicit-state breadth-first search over DOM call histories on the real xml_dom objects: a state is the history reaching it (re-executed from a fresh parse), de-duplicated by a canonical key (labelled forest of all live handles: kind, name, value, parent, child list, attribute map, owner; plus the rank vector of all order keys). Alphabet: append_child / insert_before / replace_child / remove_child with every receiver and every argument among all live handles (attached, detached, created, foreign, the document, attributes, text; reference argument: every child plus a non-child, the new child itself and a foreign node), the create_* factories, set/remove attribute (by name, by node, through the NamedNodeMap), split_text at every offset. After every transition (successful or failed) the tree invariants are evaluated on every live handle. Non-trivial transition = the call succeeded or changed the state.",
-            bounds_quick: "6 initial documents, history depth 2, at most 1 created node per history",
-            bounds_thorough: "6 initial documents, history depth 3, at most 1 created node per history",
+            bounds_quick: "8 initial documents (2 in the merged-text view), history depth 2, at most 1 created node per history",
+            bounds_thorough: "8 initial documents (2 in the merged-text view), history depth 3, at most 1 created node per history",
             assumptions: &["node identity = (node kind, XmlNode::id()); handles are assigned in a deterministic walk order so that histories replay exactly"],
             unbounded_total: false,
         }
